@@ -66,9 +66,15 @@ def follow_ups(draw, units_a, units_r):
 
 @st.composite
 def binary_case(draw):
-    cls = draw(st.sampled_from(["same_unit", "other_unit", "other_unit", "log", "decimal", "number", "other_dim"]))
+    cls = draw(st.sampled_from(["same_unit", "other_unit", "other_unit", "log", "decimal", "number", "other_dim", "prepared"]))
     op = draw(st.sampled_from(BIN))
-    if cls == "log":
+    if cls == "prepared":
+        prep = lambda: {"x": draw(st.floats(0.01, 0.99)), "u": None, "e": None, "dec": False,
+                        "prep": draw(st.sampled_from(["cm/m", "m/km", "mm/m", "s/ms"]))}
+        a = prep() if draw(st.booleans()) else draw(operand(unit_text=draw(st.sampled_from([None, "%"])), allow_dec=False, array=False))
+        b = prep()
+        alts = ["%", "cm/m", "ppth"]
+    elif cls == "log":
         u = draw(st.sampled_from(LOGU))
         a = draw(operand(unit_text=u, allow_dec=False))
         b = draw(operand(unit_text=u if draw(st.integers(0, 3)) else draw(st.sampled_from(LOGU)), allow_dec=False,
@@ -96,7 +102,12 @@ def binary_case(draw):
     if isinstance(a["x"], list) and isinstance(b["x"], list) and len(a["x"]) != len(b["x"]):
         b["x"] = b["x"][0]
     fu = draw(follow_ups(alts, alts))
-    return {"kind": "binary", "cls": cls, "op": op, "a": a, "b": b, "swap": draw(st.booleans()), "follow": fu}
+    # the other operand may be the operand itself or derived from it (results inherit internals of their operands);
+    # the operator may be spelt as an augmented assignment on a second reference
+    derive = draw(st.sampled_from([None, None, None, "same", "neg", "twice"])) if cls in ("log", "same_unit", "other_unit") else None
+    aug = op != "==" and draw(st.integers(0, 4)) == 0
+    return {"kind": "binary", "cls": cls, "op": op, "a": a, "b": b, "swap": draw(st.booleans()), "follow": fu,
+            "derive": derive, "aug": aug}
 
 
 @st.composite
@@ -108,6 +119,9 @@ def unary_case(draw):
         alts = ["rad", "deg", "mrad"]
     elif fn in ("arcsin", "arccos", "arctan"):
         a = draw(operand(unit_text=draw(st.sampled_from(["%", "ppth", None])), allow_dec=False, values=st.floats(0.01, 0.99)))
+        if draw(st.integers(0, 2)) == 0:
+            a = {"x": draw(st.floats(0.01, 0.99)), "u": None, "e": None, "dec": False,
+                 "prep": draw(st.sampled_from(["cm/m", "m/km", "mm/m"]))}
         alts = ["%", "ppth"]
     else:
         dim = draw(st.sampled_from(G.DIMS))
@@ -169,6 +183,11 @@ def _mk(o):
         return x
     if o["dec"]:
         x = Decimal(str(x))
+    if o.get("prep"):
+        # a bare number brought into a dimensionless quotient of dimensional units by the explicit in-place to()
+        q = Quantity(x)
+        q.to(o["prep"])
+        return q
     return Quantity(x, o["u"], abse=o["e"])
 
 
@@ -222,6 +241,8 @@ def _describe(o):
     if o.get("plain"):
         return repr(o["x"])
     x = f"Decimal('{o['x']}')" if o["dec"] else repr(o["x"])
+    if o.get("prep"):
+        return f"Quantity({x}).to({o['prep']!r})"
     return f"Quantity({x},{o['u']!r}{'' if o['e'] is None else ',abse=%r' % o['e']})"
 
 
@@ -266,14 +287,26 @@ def check_binary(case, v):
     from scinumtools.units import Quantity
     a_spec, b_spec, op = case["a"], case["b"], case["op"]
     A, B = _mk(a_spec), _mk(b_spec)
+    bdesc = _describe(b_spec)
+    derive = case.get("derive")
+    if derive:
+        try:
+            B = {"same": lambda: A, "neg": lambda: -A, "twice": lambda: A + A}[derive]()
+        except Exception:
+            return v.discard("derived-operand-not-defined")
+        bdesc = {"same": "a", "neg": "(-a)", "twice": "(a + a)"}[derive] + " [a = " + _describe(a_spec) + "]"
     left, right = (B, A) if case["swap"] else (A, B)
-    lt, rt = (_describe(b_spec), _describe(a_spec)) if case["swap"] else (_describe(a_spec), _describe(b_spec))
-    text = f"{lt} {op} {rt}"
+    lt, rt = (bdesc, _describe(a_spec)) if case["swap"] else (_describe(a_spec), bdesc)
+    aug = bool(case.get("aug"))
+    text = f"{lt} {op}{'=' if aug else ''} {rt}" + (" (augmented assignment on a second reference to the left operand)" if aug else "")
     sa, sb = snap(A), snap(B)
     raised = False
     r = None
     try:
-        if op == "+":
+        if aug:
+            import operator
+            r = {"+": operator.iadd, "-": operator.isub, "*": operator.imul, "/": operator.itruediv}[op](left, right)
+        elif op == "+":
             r = left + right
         elif op == "-":
             r = left - right
@@ -289,7 +322,7 @@ def check_binary(case, v):
         d = diff(s, o)
         if d:
             return v.fail("operand-changed", f"{text}{' (raised)' if raised else ''} altered the {name} operand: {d}")
-    objs = {"a": A, "b": B, "r": r if isinstance(r, Quantity) else None}
+    objs = {"a": A, "b": B if B is not A else None, "r": r if isinstance(r, Quantity) else None}
     names = {"a": "operand", "b": "other operand", "r": "result"}
     _apply_follow(v, case["follow"], objs, names, text)
     if v.violations:
@@ -300,6 +333,12 @@ def check_binary(case, v):
     v.label("bin" + op, case["cls"], "raised" if raised else "returned")
     if a_spec["dec"] or b_spec.get("dec"):
         v.label("decimal")
+    if derive:
+        v.label("derived_operand_" + derive)
+    if aug:
+        v.label("augmented_assignment")
+    if a_spec.get("prep") or b_spec.get("prep"):
+        v.label("prepared_quotient_operand")
 
 
 def check_unary(case, v):
